@@ -181,6 +181,10 @@ def run_case(ctx: Ctx, prog: list, ids: list) -> list[str]:
             probs.append(f"oracle: accepted program does not compile for {cid}: {type(e).__name__}: {e}")
             continue
         mc = mres["optic_closed"][cid]
+        # model-vs-model: the abstraction of the bookkeeping state must equal the specification EXACTLY
+        # (this is the statement of the refinement theorem sem_add, validated on every case)
+        if mc is not None and m.get("abs_closed") != mc:
+            probs.append(f"corr: {cid}: refinement broken inside the model: abs(bookkeeping).closed != specification.closed")
         if mc is not None:
             d = match_closed(w, hi, ho, q, mc)
             if d:
